@@ -80,6 +80,8 @@ func (r *refRun) act(a nAct, catchVar *obj) comp {
 		o := r.newObj(a.Cls, "f"+a.Cls)
 		r.last = o
 		return comp{kind: cThrow, o: o}
+	case "x":
+		return r.refExpr(a)
 	case "re":
 		return comp{kind: cThrow, o: catchVar}
 	case "ret":
@@ -245,7 +247,7 @@ func (e expectation) String() string { return strings.Join(e.Toks, ";") }
 // error meets a catch (Exception) and the two readings differ).
 func reference(p Prog) []expectation {
 	var out []expectation
-	hasRT := p.Root.uses("rt0") || p.Root.uses("rtm") || p.Root.uses("rth") || p.Root.uses("rtp")
+	hasRT := usesClass2(p.Root, "x", "RT") || p.Root.uses("rt0") || p.Root.uses("rtm") || p.Root.uses("rth") || p.Root.uses("rtp")
 	for _, flag := range []bool{true, false} {
 		r := &refRun{rtIsException: flag, cov: map[string]bool{}}
 		r.program(p)
